@@ -219,7 +219,7 @@ impl Expression for Op {
         let original_state = state.clone();
 
         let mut state = state.clone();
-        let mut lhs_def = self.lhs.apply_type_info(&mut state);
+        let lhs_def = self.lhs.apply_type_info(&mut state);
         let lhs_value = self.lhs.resolve_constant(&original_state);
 
         // TODO: this is incorrect, but matches the existing behavior of the compiler
@@ -246,6 +246,8 @@ impl Expression for Op {
             }
 
             Or => {
+                // an undefined operand (e.g. a path that cannot exist) reads as `null` at runtime
+                let mut lhs_def = lhs_def.upgrade_undefined();
                 if lhs_def.is_null() || lhs_value == Some(Value::Boolean(false)) {
                     // lhs is always "false"
                     self.rhs.apply_type_info(&mut state)
